@@ -100,7 +100,7 @@ func sameEntries(a, b []changelog.ChangelogEntry) bool {
 		if !x.When.Equal(y.When) || ox != oy {
 			return false
 		}
-		x.When, y.When = y.When, y.When
+		x.When = y.When
 		if !reflect.DeepEqual(x, y) {
 			return false
 		}
